@@ -6,7 +6,7 @@ from __future__ import annotations
 import ast
 import re
 
-from ..astutil import call_attr, calls_in, guard_facts, norm_facts, text_facts, unparse, walk_local
+from ..astutil import call_attr, calls_in, canon_locals, dispatch_tables, guard_facts, norm_facts, text_facts, unparse, walk_local
 from ..cfg import CFG
 from ..dataflow import resolved_text
 from ..report import Finding, Report
@@ -342,6 +342,81 @@ def check(idx: Index, rep: Report, tier: str) -> str:
                 r.ok(inst, f"{g.module.relpath}:{defs[0].lineno} `{nm}` recomputed before every use that follows an edit")
     if n_pos == 0:
         raise AnalysisError("desymref: no position computed with get_operation_index found")
+
+    # ---- R9: range folding treats the two operands of the folded operation symmetrically: only commutative operations qualify
+    r = rep.rule("C16.R9", "every operation class whose use of the induction variable is folded into the loop bounds is commutative (the transformation takes 'the other operand' whichever side the induction variable is on)", floor=2)
+    f = idx.func(RF, "ScfForLoopRangeFolding.match_and_rewrite")
+    accepted: set[str] = set()
+    for c in calls_in(f.node):
+        if isinstance(c.func, ast.Name) and c.func.id == "isinstance" and len(c.args) == 2:
+            cl = c.args[1]
+            parts = []
+            stack = [cl]
+            while stack:
+                x = stack.pop()
+                if isinstance(x, ast.BinOp) and isinstance(x.op, ast.BitOr):
+                    stack += [x.left, x.right]
+                elif isinstance(x, ast.Tuple):
+                    stack += list(x.elts)
+                else:
+                    parts.append(unparse(x))
+            if all(p_.startswith("arith.") for p_ in parts):
+                accepted |= {p_.split(".")[1] for p_ in parts}
+    for _s, tbl_, _d, _n in dispatch_tables(f.node):
+        for key_ in tbl_:
+            m_ = re.fullmatch(r"pattern:arith\.(\w+)\(\)", key_)
+            if m_:
+                accepted.add(m_.group(1))
+    if len(accepted) < 2:
+        raise AnalysisError(f"{f.fq}: the operation classes accepted for folding were not found ({sorted(accepted)})")
+    arith_mod = idx.module("xdsl/dialects/arith.py")
+    # position-sensitive handling: the operand position of the induction variable is tested and the non-commutative class is
+    # restricted to one position
+    for cn in sorted(accepted):
+        cls_ = arith_mod.classes.get(cn)
+        if cls_ is None:
+            raise AnalysisError(f"arith.{cn} not found")
+        def _declares(c_) -> bool:
+            return any(isinstance(st_, (ast.Assign, ast.AnnAssign)) and unparse(st_.targets[0] if isinstance(st_, ast.Assign) else st_.target) == "traits" and st_.value is not None and "Commutative()" in unparse(st_.value) for st_ in c_.node.body)
+
+        commutative = _declares(cls_) or any(idx.is_subclass(cls_, b_) and _declares(arith_mod.classes[b_]) for b_ in arith_mod.classes if b_ != cn)
+        inst = f"{f.fq}:{cn}"
+        if commutative:
+            r.ok(inst, f"{f.loc} arith.{cn} is commutative")
+        else:
+            r.fail(inst, Finding("C16.R9", f.fq, f"non-commutative-folded:{cn}", f"arith.{cn} is accepted as the single user of the induction variable and folded into the bounds with 'the other operand', but it is not commutative: `{cn.lower()[:-2]} %c, %i` is folded as if it were `{cn.lower()[:-2]} %i, %c`", f.loc))
+
+    # ---- R8: `xs[count - 1]` where the count may be 0 selects the LAST element (negative indices wrap)
+    r = rep.rule("C16.R8", "a subscript `xs[n - 1]` whose n is a count that can be 0 (bisect / len / count / index) is reached only where n > 0 was established: otherwise the 'no preceding element' case silently becomes 'the last element'", floor=None)
+    COUNTS = ("bisect_left", "bisect_right", "bisect", "len", "count", "index", "sum")
+    n_sub = 0
+    for rel in ("xdsl/transforms/desymref.py", LICM, CFH, UNROLL, RF):
+        for g in _raw(idx.module(rel)):
+            gcfg = None
+            for sub in [x for x in ast.walk(g.node) if isinstance(x, ast.Subscript) and isinstance(x.slice, ast.BinOp) and isinstance(x.slice.op, ast.Sub) and isinstance(x.slice.right, ast.Constant) and x.slice.right.value == 1]:
+                left = sub.slice.left
+                if gcfg is None:
+                    gcfg = CFG(g.node)
+                try:
+                    lt = resolved_text(gcfg, left, gcfg.node_of(sub))
+                except AnalysisError:
+                    continue
+                try:
+                    le = ast.parse(lt, mode="eval").body
+                except SyntaxError:
+                    continue
+                if not (isinstance(le, ast.Call) and (call_attr(le) in COUNTS or (isinstance(le.func, ast.Name) and le.func.id in COUNTS))):
+                    continue
+                n_sub += 1
+                nm = unparse(left)
+                facts = {(t_, p_) for t_, p_ in norm_facts(text_facts(g.node, sub))}
+                guarded = any((t_ in (f"{nm} > 0", f"{nm} != 0", nm, f"{nm} >= 1", f"0 < {nm}", f"1 <= {nm}") and p_) or (t_ in (f"{nm} == 0", f"{nm} < 1", f"{nm} <= 0") and not p_) for t_, p_ in facts)
+                inst = f"{g.fq}:{unparse(sub)}"
+                if guarded:
+                    r.ok(inst, f"{rel}:{sub.lineno} `{unparse(sub)}` under {nm} > 0")
+                else:
+                    r.fail(inst, Finding("C16.R8", g.fq, f"count-wraparound:{canon_locals(g.node, sub)}", f"`{unparse(sub)}` with `{nm}` = `{lt[:60]}`, which is 0 when nothing precedes: the subscript is then -1, the LAST element - a read that has no earlier write in the block is forwarded the value of the block's last write", f"{rel}:{sub.lineno}"))
+    r.ok("self-check", f"{n_sub} subscripts of the form xs[count - 1] in the anchored transformations")
 
     return (
         "Guarded-action rules on the two code-motion transformations (LICM, control-flow hoist) and two structural rules on "
